@@ -25,8 +25,10 @@ LEVEL_TEXT = ("Machine-checked (Lean 4, no sorry, axioms propext/Classical.choic
               "constraints of every block form a tight spanning tree, member lists and heap contents are sound), "
               "static_block_inv_steps (preserved by mergeLeft, mergeRight, split from any state), "
               "static_merge_applicable, static_totalOrder_topological (totalOrder/dfsVisit returns a topological "
-              "order of an acyclic constraint graph and never runs out of fuel), static_satisfy_total (Solver(vs,cs); "
-              "satisfy() never exhausts the model's fuel: it returns normally or throws), static_merge_total, "
+              "order of an acyclic constraint graph and never runs out of fuel), static_satisfy_total / "
+              "static_solve_total (Solver(vs,cs); satisfy() / solve() never exhaust the model's fuel - heap loops, "
+              "merge loops, the DFS, compute_dfdv (a path in the active forest) and populateSplitBlock - they "
+              "return normally or throw), static_merge_total, static_satisfy_fixed_point, "
               "static_active_tight, static_quiescent_is_optimum.")
 LEVEL_NOTE = ("Scope of 'proof': the theorems are about the hand-written Rat model of IncSolver; the C++ is tied to it "
               "by sampled correspondence (trusted base), and float rounding inside the solver is outside the model. "
@@ -35,8 +37,8 @@ LEVEL_NOTE = ("Scope of 'proof': the theorems are about the hand-written Rat mod
               "theorems: constraints refer to existing variables and are not pre-flagged (Hist). eq_post assumes "
               "non-zero scales. Not proved: that the certificate search of Check.feasible never answers 'unknown' "
               "(both of its real answers are proved sound; an 'unknown' is reported; none observed). Static "
-              "Solver: fuel of refine()'s tree traversals (compute_dfdv, populateSplitBlock) is not analysed "
-              "(satisfy() is proved total); NOT proved that satisfy() never throws on an acyclic inequality system (the VPSC paper's merge "
+              "Solver: total (static_solve_total: no theorem about its normal returns is vacuous for lack of fuel); "
+              "NOT proved that satisfy() never throws on an acyclic inequality system (the VPSC paper's merge "
               "invariant through the lazily repaired heaps) - that is observed per case by correspondence + the "
               "proven checker (the model has no dynamic check: that every heap hands back a constraint joining "
               "its block to another one is a theorem, static_merge_applicable); a throw of UnsatisfiedConstraint by the "
